@@ -210,7 +210,7 @@ pub fn raw_fd_read_is_one_syscall_and_marks() {
     assert!(n == 1, "C13: a descriptor read must be exactly one read(2)");
     assert!(last.0 == fd && last.1 == host && last.2 == size, "C13,C01: read(2) must be handed exactly the slice (fd, pointer, length)");
     if ret >= 0 {
-        assert!(matches!(r, Ok(k) if k == ret as usize), "C13: descriptor read must report the count read(2) returned");
+        assert!(matches!(r, Ok(k) if k == ret as usize), "C13,C14: descriptor read must report the count read(2) returned (a short transfer reported as complete makes the exact loops skip bytes)");
         if ret == 0 { fx.unmarked(); } else { fx.marked(0, ret as usize); }
     } else {
         assert!(matches!(&r, Err(VolatileMemoryError::IOError(_))), "C13: a failing read(2) must surface as IOError");
@@ -236,7 +236,7 @@ pub fn raw_fd_write_is_one_syscall() {
     let (n, last, ret) = unsafe { (crate::verif_ffi::WRITE_CALLS, crate::verif_ffi::LAST, crate::verif_ffi::LAST_RET) };
     assert!(n == 1, "C13: a descriptor write must be exactly one write(2)");
     assert!(last.0 == fd && last.1 == host && last.2 == size, "C13,C01: write(2) must be handed exactly the slice (fd, pointer, length)");
-    if ret >= 0 { assert!(matches!(r, Ok(k) if k == ret as usize), "C13: descriptor write must report the count write(2) returned"); }
+    if ret >= 0 { assert!(matches!(r, Ok(k) if k == ret as usize), "C13,C14: descriptor write must report the count write(2) returned (a short transfer reported as complete makes the exact loops skip bytes)"); }
     else { assert!(matches!(&r, Err(VolatileMemoryError::IOError(_))), "C13: a failing write(2) must surface as IOError"); }
     fx.unmarked();
 }
